@@ -48,7 +48,7 @@ mut = "\n".join(mrows) + "\n\nControls: " + "; ".join(ctl) + "."
 # seeded: the full table goes to seeded/TABLE.md, DESIGN.md gets the per-round summary
 srows = ["| seeded change | breaks | code site | what it needs to manifest | checks that report it (quick) | outcome when first run |", "|---|---|---|---|---|---|"]
 rounds = {}
-for d in sorted(glob.glob("/verif/seeded/C*") + glob.glob("/verif/seeded/R[0-9]*") + glob.glob("/verif/seeded/S[0-9]*") + glob.glob("/verif/seeded/T[0-9]*")):
+for d in sorted(glob.glob("/verif/seeded/C*") + glob.glob("/verif/seeded/R[0-9]*") + glob.glob("/verif/seeded/S[0-9]*") + glob.glob("/verif/seeded/T[0-9]*") + glob.glob("/verif/seeded/U[0-9]*")):
     if not os.path.isdir(d):
         continue
     m = json.load(open(f"{d}/meta.json"))
@@ -67,8 +67,9 @@ for d in sorted(glob.glob("/verif/seeded/C*") + glob.glob("/verif/seeded/R[0-9]*
         other_ok = any(not late(v) for k, v in db.items() if k != own)
         first = "reported as built" if own_ok else ("as built reported only by another check; alphabet/grid extended" if other_ok else "missed at first, alphabet/grid extended")
     r = m.get("round", 2 if name.endswith("-r2") else 1)
-    st = rounds.setdefault(r, [0, 0, 0, 0])
+    st = rounds.setdefault(r, [0, 0, 0, 0, 0])
     st[0] += 1
+    st[4] += 0 if any(v.startswith("NOT DETECTED") for v in m.get("detected_by", {}).values()) else 1
     st[1] += 1 if own_ok else 0
     st[2] += 1 if (not own_ok and other_ok) else 0
     st[3] += 1 if (not own_ok and not other_ok) else 0
@@ -76,11 +77,11 @@ for d in sorted(glob.glob("/verif/seeded/C*") + glob.glob("/verif/seeded/R[0-9]*
 open("/verif/seeded/TABLE.md", "w").write("# Independently seeded changes (generated by tools_fill_design.py from seeded/*/meta.json)\n\n" + "\n".join(srows) + "\n")
 sm = ["| round | changes | reported as built by the named property's check | only by another property's check | by none | reported after the extensions |", "|---|---|---|---|---|---|"]
 for r in sorted(rounds):
-    n, a, b, c = rounds[r]
-    label = {1: "1 (one per property)", 2: "2 (different site)", 3: "3 (hard to reach)", 4: "4 (hard to reach, new directions)", 5: "5 (by code region)", 6: "6 (by code region, second pass)", 7: "7 (by theme: interplay, configuration changes)"}.get(r, str(r))
-    sm.append(f"| {label} | {n} | {a} | {b} | {c} | {n} |")
-tot = [sum(v[i] for v in rounds.values()) for i in range(4)]
-sm.append(f"| **total** | {tot[0]} | {tot[1]} | {tot[2]} | {tot[3]} | {tot[0]} |")
+    n, a, b, c, dn = rounds[r]
+    label = {1: "1 (one per property)", 2: "2 (different site)", 3: "3 (hard to reach)", 4: "4 (hard to reach, new directions)", 5: "5 (by code region)", 6: "6 (by code region, second pass)", 7: "7 (by theme: interplay, configuration changes)", 8: "8 (by theme, second pass)"}.get(r, str(r))
+    sm.append(f"| {label} | {n} | {a} | {b} | {c} | {dn} |")
+tot = [sum(v[i] for v in rounds.values()) for i in range(5)]
+sm.append(f"| **total** | {tot[0]} | {tot[1]} | {tot[2]} | {tot[3]} | {tot[4]} |")
 seed = "\n".join(sm) + "\n\nPer change (site, trigger, which check reports it with which violation kind, outcome when first run): `seeded/TABLE.md`; regression of all stored changes against their own checks: `seeded/regress.sh` → `seeded/RESULTS.md`."
 s = open("/verif/DESIGN.md").read()
 for tag, body in [("COVERAGE_TABLE", cov), ("MUTANT_TABLE", mut), ("SEEDED_TABLE", seed)]:
